@@ -5433,9 +5433,16 @@ func (l *Lowerer) lowerLocalConst(decl *parser.ConstDecl, target *[]ir.Statement
 	l.scopeSet(decl.Name)
 	l.locals[decl.Name] = initHandle
 
-	// Track pointer let-bindings: let p = &v[i]
-	if un, ok := decl.Init.(*parser.UnaryExpr); ok && un.Op == parser.TokenAmpersand {
-		l.localIsPtr[decl.Name] = true
+	// Track pointer let-bindings: let p = &v[i], and copies of one: let q = p
+	switch init := decl.Init.(type) {
+	case *parser.UnaryExpr:
+		if init.Op == parser.TokenAmpersand {
+			l.localIsPtr[decl.Name] = true
+		}
+	case *parser.Ident:
+		if l.localIsPtr[init.Name] {
+			l.localIsPtr[decl.Name] = true
+		}
 	}
 
 	if decl.IsConst {
